@@ -105,7 +105,7 @@ def g_append(r, name):
             pos = r.randrange(0, 50)
         pos = max(0, min(pos, IMAX))
         L.append("appendat 110 1 %d %d" % (pos, n_))
-        L.append("dds")     # (anything allocated here would end the file instead of the element)
+        L += ["get 110 1", "dds"]     # a refused write leaves the content readable (anything allocated here would end the file)
     L += ["dds", "reopen", "dds", "put 113 1 6", "get 113 1"]
     return L
 
@@ -387,6 +387,43 @@ def g_attr2(r, name):
     return L
 
 
+def g_sdcount(r, name):
+    """the documented maxima of the SD interface reached through EVERY path: H4_MAX_NC_VARS through SDcreate and through
+    the coordinate variable a dimension gets on demand, H4_MAX_NC_ATTRS through new and replaced attributes (on a data
+    set of maximal rank, whose Vgroup then has the largest number of members)"""
+    L = ["history " + name, "sdstart 0"]
+    if r.random() < 0.5:
+        L += ["sdcreate 0 8 %d" % r.choice([1, 2, 32]), "sdcreate 0 9 1", "sdcreate 0 7 2"]
+        L.append("sdfill 0 %d" % r.choice([4995, 4996, 4996, 4997]))
+        for _ in range(r.choice([4, 6])):
+            L.append(r.choice(["sdattr 0 %d 1 20 3" % (1000 + r.randrange(0, 3)), "sdattr 0 %d 2 20 3" % (1000 + r.randrange(0, 3)),
+                               "sdcreate 0 6 1", "sdattrinfo 0 %d 1" % (1000 + r.randrange(0, 3)), "sdfill 0 1", "sdinfo 0"]))
+        L += ["sdinfo 0", "sdcreate 0 6 1", "sdattr 0 1000 3 20 2", "sdattr 0 1001 3 20 2", "sdattr 0 1002 3 20 2", "sdinfo 0",
+              "sdattr 0 0 4 20 2", "sdattrinfo 0 0 4"]
+    else:
+        L += ["sdcreate 0 8 %d" % r.choice([32, 32, 1])]
+        L.append("sdattrfill 0 0 %d" % r.choice([2997, 2998, 2999, 3000]))
+        for _ in range(r.choice([3, 5])):
+            a = r.choice([5, 6, 7])
+            L += ["sdattr 0 0 %d 20 %d" % (a, r.choice([1, 3, 65535, 65536])), "sdattrinfo 0 0 %d" % a]
+        L += ["sdattrfill 0 0 2", "sdattr 0 0 5 20 4", "sdattrinfo 0 0 5"]
+    L += ["sdend 0", "sdopen 0", "sdinfo 0", "sdname 0 0", "sdend 0"]
+    return L
+
+
+def g_lone(r, name):
+    """objects whose ref is the highest the format has (or near it) must be found by every enumeration"""
+    ref = r.choice([65535, 65535, 65535, 65534, 65533, 300])
+    return ["history " + name, "hopen %d" % r.choice([16, 64]), "%s %d" % (r.choice(["lonevs", "lonevg"]), ref), "put 150 1 5",
+            "reopen", "get 150 1", "dds"]
+
+
+def g_hole(r, name):
+    """a refused write into a special element must leave what the SAME session reads afterwards unchanged"""
+    return ["history " + name, "hopen 16", "hlhole 120 1 %d" % r.choice([64, 1000, 4096, 65536, 1 << 20]), "put 150 1 5", "get 150 1",
+            "reopen", "dds", "get 150 1"]
+
+
 def g_fn(r, name):
     L = ["history " + name]
     for _ in range(40):
@@ -410,7 +447,7 @@ def g_fn(r, name):
 
 
 GENS = [("eof", g_eof, 10), ("append", g_append, 6), ("seek", g_seek, 4), ("chunk", g_chunk, 1), ("hl", g_hl, 4), ("refs", g_refs, 2), ("vg", g_vg, 4),
-        ("vs", g_vs, 9), ("sd", g_sd, 6), ("attr", g_attr, 4), ("attr2", g_attr2, 3), ("fn", g_fn, 2)]
+        ("vs", g_vs, 9), ("sd", g_sd, 6), ("attr", g_attr, 4), ("attr2", g_attr2, 3), ("sdcount", g_sdcount, 2), ("lone", g_lone, 3), ("hole", g_hole, 2), ("fn", g_fn, 2)]
 
 
 # ------------------------------------------------------------------------------------------------- running
